@@ -261,13 +261,17 @@ def run(ctx: Ctx):
     from ..rules import loopfresh
 
     r11 = loopfresh.run_loopfresh(ctx.p, "C17.11", "C17", floor=3)
-    return [rule_palette_order(ctx), rule_palette_notify(ctx), rule_palette_cache(ctx), rule_palette_total(ctx), rule_attrmap(ctx), r6, r7, r8, r9, r10, r11]
+    from ..rules import pairlen
+
+    r12 = pairlen.run_pairlen(ctx.p, "C17.12", ["urwid.canvas.apply_text_layout", "urwid.util.apply_target_encoding"], floor=8)
+    return [rule_palette_order(ctx), rule_palette_notify(ctx), rule_palette_cache(ctx), rule_palette_total(ctx), rule_attrmap(ctx), r6, r7, r8, r9, r10, r11, r12]
 
 
 _CM = "urwid/display/common.py"
 _RW = "urwid/display/_raw_display_base.py"
 _HT = "urwid/display/html_fragment.py"
 MUTANTS = [
+    Mut("ellipsis-attr-run-in-columns", "urwid/canvas.py", "apply_text_layout", "attrrange(s.offs, s.offs, len(tseg))", "attrrange(s.offs, s.offs, s.sc)", "PAIRLEN|canvas.apply_text_layout"),
     Mut("palette-256-built-for-88", _CM, "BaseScreen.register_palette_entry", "high_256 = AttrSpec(foreground_high, background_high, 256)", "high_256 = AttrSpec(foreground_high, background_high, 88)", "TAB|"),
     Mut("palette-store-order-swapped", _CM, "BaseScreen.register_palette_entry", "self._palette[name] = (basic, mono_spec, high_88, high_256, high_true)", "self._palette[name] = (basic, mono_spec, high_256, high_88, high_true)", "TAB|"),
     Mut("raw-map-swaps-88-256", _RW, "urwid.display._raw_display_base.Screen._on_update_palette_entry", "{16: 0, 1: 1, 88: 2, 256: 3, 2**24: 4}", "{16: 0, 1: 1, 88: 3, 256: 2, 2**24: 4}", "TAB|"),
